@@ -144,6 +144,7 @@ std::string g_detail;
 // counters (flushed at the end; vf::eval / vf::label cost a map lookup per call)
 std::uint64_t g_evals[F_COUNT];
 std::uint64_t g_nt;
+std::uint64_t g_excluded;
 enum Lab { L_LIMIT, L_SIGNMIX, L_ZERO, L_COUNT_OUT, L_IN_DOMAIN, L_NLAB };
 char const* const LABN[L_NLAB] = {"args.contain_limit", "args.sign_mix", "args.contain_zero", "rot.count_outside_1_to_digits-1", "call.in_domain"};
 std::uint64_t g_lab[L_NLAB][2];
@@ -160,14 +161,14 @@ void flush_counters()
     }
     for (int l = 0; l < L_NLAB; ++l) {
         if (g_lab[l][1] != 0) {
-            auto& c = vf::stats().classes[LABN[l]];
-            c.first += g_lab[l][0];
-            c.second += g_lab[l][1];
+            vf::label(LABN[l], g_lab[l][0], g_lab[l][1]);
         }
         g_lab[l][0] = g_lab[l][1] = 0;
     }
     vf::nontrivial_count(g_nt);
     g_nt = 0;
+    if (g_excluded != 0) { vf::excluded_known("numeric.gcd_lcm.negative_with_unsigned_common_type", g_excluded); }
+    g_excluded = 0;
 }
 
 // ------------------------------------------------------------------------------------------------ reference definitions
@@ -617,6 +618,17 @@ inline auto run_pair(Fn fn, T a, U b) -> Res
     static std::string const ty = std::string(tname<T>()) + "," + tname<U>();
     Case k{FN[fn], ty.c_str(), sx(a), sx(b), std::is_signed_v<T>, std::is_signed_v<U>};
     vf::Flight<Case> fl(k.fn, k);
+    if constexpr (std::is_signed_v<T> != std::is_signed_v<U>) {
+        // known-finding class (only when bin/check passes the tag): gcd/lcm of a negative value of a signed type with
+        // a value of an unsigned type, where the common type is unsigned
+        if ((fn == F_GCD_MIXED || fn == F_LCM_MIXED) && std::is_unsigned_v<std::common_type_t<T, U>> && (a < 0 || b < 0)) {
+            static bool const excluded = vf::ctx().excluded("numeric.gcd_lcm.negative_with_unsigned_common_type");
+            if (excluded) {
+                ++g_excluded;
+                return SKIP;
+            }
+        }
+    }
     Res const r = check2<T, U>(fn, a, b);
     if (r == FAIL) { report<T>(fn, k); }
     if (r == OK) {
